@@ -258,6 +258,11 @@ def explore(ctx):
         pw = [hc.program_wake_check(ctx, tg, wd, n=32, ohm=500.0, current=2e-3, steps=100),
               hc.program_wake_check(ctx, tg, wd, n=48, ohm=150.0, current=5e-3, steps=400, pqsize=10.0)]
         ctx.extra["program_level_wake"] = pw
+        # grids shifted differently in position and energy: recorded axes against the generated extents (square cells, zero
+        # bins), and the RF focusing strength in natural units on the second moments of every record (lib/c05_axes.py)
+        import c05_axes
+        acs = c05_axes.cases(ctx, ctx.quick())
+        ctx.extra["program_level_axes"] = dict(cases=len(acs), agreeing=c05_axes.run(ctx, tg, acs, dict(kind="program-axes")))
         if ctx.quick():
             for cfg in cfgs:
                 try:
@@ -291,7 +296,11 @@ def run(ctx, only=None):
                 "max|W|*delta/dtheta in 0.1..1.5; non-trivial row (every bunch): stencils of both kicks inside the grid and |t(x-xc)-W_b| and "
                 "|W_b| > 10 tol; row-own-wake: row of a bunch b > 0 whose own wake differs from bunch 0's by > 10 tol; step-multibunch: "
                 "multi-bunch case whose wakes differ by > 10 wake tolerances. Long run: see explored_long_run (each bunch of the two-bunch "
-                "run judged on its own profile and wake).")
+                "run judged on its own profile and wake). Program level, shifted grids: 4 (quick) / 8 short runs of the binary with "
+                "PhaseSpaceShiftX != PhaseSpaceShiftY (both signs, one axis only, -6..+7 cells), no impedance, no Fokker-Planck term: recorded axes "
+                "= generated extents, square cells, zero bins, second moments of every record against the kick-drift recurrence with RF strength "
+                "tan(2 pi/N) in natural units; non-trivial: a mesh-width ratio 1+(ShiftY-ShiftX)/(n-1) would move the series by > 20 tolerances. "
+                "Long run: two of the quick configurations run on grids shifted -5/+3 and +4/-6 cells.")
     coq = vp_coq.full_check("C05", ctx, fams=("haiss",))
     complete_axioms(ctx, coq)
     dis = []
@@ -336,7 +345,11 @@ def run(ctx, only=None):
     # only the translator ties it to main(); none for the index arithmetic of apply().)
     failed = [g for g, s in coq["gen"].items() if s.startswith("failed")]
     mb_ok = any(k[0] == "step-multibunch" for k in ctx.nontrivial if isinstance(k, tuple))
-    can = {"Gen_WakeScale": True, "Gen_WakeUpdate": mb_ok and rows > 0}
+    # axis extents (Gen_Scaling) and Ruler arithmetic (Gen_Ruler): the recorded axes of every shifted-grid run of the binary equal the
+    # last-good expressions evaluated for the command line, both axes span PhaseSpaceSize, zero bins at (n-1)/2 + own shift
+    ax = ctx.extra.get("program_level_axes") or {}
+    ax_ok = ax.get("cases", 0) > 0 and ax.get("agreeing") == ax.get("cases")
+    can = {"Gen_WakeScale": True, "Gen_WakeUpdate": mb_ok and rows > 0, "Gen_Scaling": ax_ok, "Gen_Ruler": ax_ok}
     if failed and all(can.get(g, False) for g in failed) and coq["make_ok"] and coq["props"]["ok"] and not coq["forbidden"] \
             and coq["extract_ok"] and not dis and not ctx.violations and ctx.evaluations > 0:
         for g in failed:
@@ -352,6 +365,17 @@ def replay(ctx, rp):
     case = rp.get("case") or {}
     if case.get("kind") == "step":
         run(ctx, only=[hc.case_from_replay(case)])
+    elif case.get("kind") == "program-axes":
+        import c05_axes
+        coq = vp_coq.full_check("C05", ctx, fams=("haiss",))
+        tg = ctx.build(harness=("impl_haiss", "h5cat"), want_binary=True)
+        wd = tempfile.mkdtemp(prefix="c05_", dir=os.path.join(vp_build.CACHE))
+        try:
+            c05_axes.run(ctx, tg, [case], dict(kind="program-axes"))
+        finally:
+            shutil.rmtree(wd, ignore_errors=True)
+        ctx.rule = "replay of one recorded shifted-grid run of the binary"
+        conclude(ctx, coq, [])
     elif case.get("kind") == "long-run":
         import haiss_explore as he
         coq = vp_coq.full_check("C05", ctx, fams=("haiss",))
